@@ -455,7 +455,13 @@ func (m *c02Mon) poll() {
 // invariants at every instruction; a run that ends without error leaves the
 // operand stack empty and no run ends in an internal fault.
 func C02_Monitor() {
-	p := Catalog[vf.Choice("prog", len(Catalog))]
+	k := vf.Choice("prog", len(Catalog)+len(deadCodeProgs))
+	var p Prog
+	if k < len(Catalog) {
+		p = Catalog[k]
+	} else {
+		p = deadCodeProgs[k-len(Catalog)]
+	}
 	s := tengo.NewScript([]byte(p.Src))
 	progInputs(s, p)
 	c, err := s.Compile()
